@@ -41,6 +41,7 @@ type (
 		client          RedisClient
 		disp            *cmdDispatcher
 		cmdQueue        *[]*cmdContext
+		cmdQueueError   bool // a command was rejected while queueing; EXEC must discard the transaction
 		watches         map[watchKey]uint64
 		blocked         int32
 		unblockPending  int32
